@@ -236,7 +236,7 @@ type RunResult struct {
 	TimedOut bool
 	Signaled bool
 	Panicked bool
-	Reads    []string // with strace: paths whose content was read
+	Reads    []string    // with strace: paths whose content was read
 	Steps    [][2]string // filled by callers that parse a step log
 	WallS    float64
 }
